@@ -45,7 +45,13 @@ func newKeyGen(r *rand.Rand, n int) *keyGen {
 	for len(g.pool) < n {
 		switch r.Intn(10) {
 		case 0:
-			g.pool = append(g.pool, longKey())
+			if r.Intn(2) == 0 {
+				b := make([]byte, []int{127, 128, 129}[r.Intn(3)])
+				r.Read(b)
+				g.pool = append(g.pool, b)
+			} else {
+				g.pool = append(g.pool, longKey())
+			}
 		case 1, 2: // extension of an existing key
 			b := g.pool[r.Intn(len(g.pool))]
 			g.pool = append(g.pool, append(append([]byte{}, b...), byte(r.Intn(3))))
@@ -85,6 +91,11 @@ func (g *keyGen) probe() []byte {
 }
 
 func (g *keyGen) value() []byte {
+	if g.r.Intn(12) == 0 { // lengths around the one-byte / two-byte length prefix boundary
+		b := make([]byte, []int{127, 128, 128, 129, 255, 256}[g.r.Intn(6)])
+		g.r.Read(b)
+		return b
+	}
 	switch g.r.Intn(8) {
 	case 0:
 		return []byte{}
@@ -593,7 +604,12 @@ func genM1(r *rand.Rand, p Profile, id string) Case {
 			if t.cur != t.latest() || t.dirty {
 				continue
 			}
-			if r.Intn(2) == 0 {
+			if r.Intn(3) == 0 { // a one-leaf tree: its root is reused as a child later
+				for _, k := range g.pool {
+					ops = append(ops, []string{"rm", hx(k)})
+				}
+				ops = append(ops, []string{"set", hx(g.key()), hx(g.value())})
+			} else if r.Intn(2) == 0 {
 				ops = append(ops, []string{"set", hx(g.key()), hx(g.value())})
 			}
 			ops = append(ops, []string{"save"}, []string{"save"})
@@ -605,6 +621,7 @@ func genM1(r *rand.Rand, p Profile, id string) Case {
 			ops = append(ops, []string{"prune", i64(a)})
 			ops = append(ops, []string{"set", hx(g.key()), hx(g.value())}, []string{"save"})
 			t.versions = append(t.versions, a+2)
+			ops = append(ops, []string{"changes", i64(a + 1), i64(a + 3)})
 			if r.Intn(2) == 0 {
 				ops = append(ops, []string{"rm", hx(g.key())}, []string{"set", hx(g.key()), hx(g.value())}, []string{"save"})
 				t.versions = append(t.versions, a+3)
@@ -620,6 +637,7 @@ func genM1(r *rand.Rand, p Profile, id string) Case {
 			t.cur = t.latest()
 			t.dirty = false
 			muts++
+			ops = append(ops, []string{"changes", i64(t.first() - 1), i64(t.latest() + 1)})
 			obs(r, g, t, false, &ops)
 			continue
 		case "proofs":
